@@ -533,7 +533,7 @@ def _gen_at(rng, o, t, v, rpath, prefix):
         return prefix + [47]
     if role == "string":
         n = rng.choice([0, 1, 3, 10, rng.range(0, 40), 254, 255, 256]) if rng.chance(1, 6) else rng.range(0, 20)
-        return prefix + [55, n] + [32 + rng.below(90) for _ in range(n)]
+        return prefix + [55, n] + U.utf8_of_len(rng, n)
     if role == "umap":
         es = v[1][0][1]
         key = U.unle(rng.choice(es)[0]) if (es and rng.chance(1, 2)) else rng.below(16)
